@@ -211,6 +211,20 @@ def cases(tier, rng):
         yield J('ok_tri_contains', *tv, *q)
         if m <= 1000:
             yield J('ok_tri_contains', *tv, rng.randrange(-m, m + 1), rng.randrange(-m, m + 1))
+        # rounded rectangle contains: quadrant corners near the i32 edge, radii near 2^15..2^16 (u64 products of squares), inside / outside queries
+        rx, ry = rng.choice([0, -1000, 1024, I32 - 3000, -I32, ei(rng)]), rng.choice([0, 1024, -I32, I32 - 70000, ei(rng)])
+        rw, rh = rng.choice([0, 1, 10, 1024, 2000, 65536, 2 ** 20, eu(rng)]), rng.choice([0, 1, 10, 1024, 65535, 2 ** 31 - 1, eu(rng)])
+        rad = [rng.choice([0, 1, 5, 500, 1024, 32767, 32768, 46341, 65536, 2 ** 20, eu(rng)]) for _ in range(8)]
+        qx_, qy_ = ci(rx + rng.choice([0, 1, rw // 2, max(rw - 1, 0), rw, -1])), ci(ry + rng.choice([0, 1, rh // 2, max(rh - 1, 0), rh, -1]))
+        yield J('ok_rrect_contains', rx, ry, rw, rh, *rad, qx_, qy_)
+        rr_ = (rng.randrange(-1024, 1025), rng.randrange(-1024, 1025), rng.randrange(0, 1025), rng.randrange(0, 1025))
+        yield J('ok_rrect_contains', *rr_, *[rng.randrange(0, 1025) for _ in range(8)], ci(rr_[0] + rng.randrange(-2, rr_[2] + 3)), ci(rr_[1] + rng.randrange(-2, rr_[3] + 3)))
+        # styled circle / ellipse constructors: stroke / fill area offsets, centre, thresholds
+        sd = rng.choice([0, 1, 5, 65535, 65536, 65537, 2 ** 31 - 1, 2 ** 31, 2 ** 32 - 1, eu(rng)])
+        swd = rng.choice([0, 1, 2, 128, 65536, 2 ** 31 - 1, 2 ** 31, 2 ** 32 - 1, eu(rng)])
+        yield J('ok_styled_circle', ei(rng), ei(rng), sd, 0, swd, rng.randrange(3))
+        yield J('ok_styled_ellipse', ei(rng), ei(rng), sd, rng.choice([sd, 3, 65536, eu(rng)]), swd, rng.randrange(3))
+        yield J('ok_styled_circle', rng.randrange(-1024, 1025), rng.randrange(-1024, 1025), rng.randrange(0, 1025), 0, rng.randrange(0, 129), rng.randrange(3))
         yield J('ok_index', rng.choice([0, 1, 2, 3, 2 ** 31, 2 ** 40]))
         yield J('ok_from_slice', rng.randrange(0, 6))
         cw_, ch_, cb_ = rng.randrange(0, 20), rng.randrange(0, 9), rng.choice([1, 8, 16, 24])
